@@ -142,6 +142,12 @@ type PCall struct {
 // (so several threads started together really overlap).  start, when not nil,
 // is waited for before the first call.
 func (s *S) SerialC(th string, calls []PCall, start <-chan struct{}) {
+	s.SerialK("callc", th, calls, start)
+}
+
+// SerialK is SerialC with the event kind of the call lines given ("call": the calls follow one another in
+// one goroutine without quiescence in between, and each starts after the previous one has returned).
+func (s *S) SerialK(kind, th string, calls []PCall, start <-chan struct{}) {
 	s.mu.Lock()
 	s.pending[th] = true
 	s.mu.Unlock()
@@ -152,7 +158,7 @@ func (s *S) SerialC(th string, calls []PCall, start <-chan struct{}) {
 			<-start
 		}
 		for _, c := range calls {
-			s.Rec.Emit("callc", append([]interface{}{"th", th, "op", c.Op, "o", c.O}, c.Args...)...)
+			s.Rec.Emit(kind, append([]interface{}{"th", th, "op", c.Op, "o", c.O}, c.Args...)...)
 			out := c.Fn()
 			s.Rec.Emit("ret", append([]interface{}{"th", th, "op", c.Op, "o", c.O}, out...)...)
 		}
